@@ -19,8 +19,12 @@
     * `pipe_triples_restricts_default_graph` is FALSE on the code as it is (D20): stated, refuted by witness,
       `_partial` proved under "no named graphs";
     * `pipe_nq_preserves`, `pipe_nt_preserves` — composition with C01's round-trip theorems;
-    * `pipe_codec_preserves_partial` (+ Turtle / RDF-JSON instances) — the same composition with the target's
-      round trip as an explicit hypothesis (those theorems are being built under C02 / C01RJ).
+    * `pipe_codec_preserves_partial` (+ Turtle / RDF-JSON instances) — the same composition over an ABSTRACT codec
+      with the target's round trip as an explicit hypothesis. SUPERSEDED for the real codecs by
+      `Props/C18Targets.lean` (builder-c18b): `pipe_preserves_ttl_plain`, `pipe_preserves_rdfjson` discharge the
+      hypothesis with `C02.plain_doc_iso` / `C01RJ.rdfjson_roundtrip` on the executable encoder/decoder models,
+      including the `--out-param` / `--out-base` plumbing; `pipe_preserves_ttl_resources_partial` for
+      `resources=true`. The abstract theorems are kept (they hold for every codec).
   Outside the model: the source decoders (the dataset they yield is a universally quantified input), gzip
   filters, HTTP, the regular expressions of the magic-byte resolvers (their answers are an input), cobra
   flag parsing, non-ASCII case folding of file names.
@@ -291,11 +295,10 @@ theorem pipe_nt_preserves {β : Type} (T : Tables) (hT : TablesOK T) (urlOk : Li
 
 /-! ## Composition for the targets whose round trip is proved elsewhere (Turtle, RDF/JSON) -/
 
-/-- FULL statements for the Turtle and RDF/JSON targets: as `pipe_nt_preserves`, with the Turtle / RDF-JSON
-    encoder and decoder models in place of `NQ.encodeDoc` / `NQ.run`. They need the executable models of those
-    codecs (`Model.TurtleDoc`, `Model.RdfJson`) and their round-trip theorems (`RdfModel.C02.…`,
-    `RdfModel.C01RJ.rdfjson_roundtrip`), which are being built by other properties. Kept as a stated `Prop`
-    over an abstract `Codec`: for every codec that round-trips on well-labelled input, the pipe preserves. -/
+/-- Statement over an abstract `Codec`: for every codec that round-trips on well-labelled input, the pipe
+    preserves. (The statements for the REAL Turtle and RDF/JSON codecs — `Model.TurtleEncoder` / `Model.TurtleDoc`,
+    `Model.RdfJson` — are `pipe_preserves_ttl_plain`, `pipe_preserves_ttl_resources(_partial)` and
+    `pipe_preserves_rdfjson` in `Props/C18Targets.lean`.) -/
 def pipe_codec_preserves (c : Codec) (P : List (Quad (List Nat)) → Prop) : Prop :=
   RoundTrips c P →
   ∀ (U : Nat → Bytes), Function.Injective U → ∀ (s : State), C14.Inv s → ∀ (j : Nat), j < s.strfs.length →
@@ -312,8 +315,8 @@ def pipe_codec_preserves (c : Codec) (P : List (Quad (List Nat)) → Prop) : Pro
       c.decode doc = some out ∧
       IsoSets out ((decoded.map quadAsTriple).map (Quad.map σ))
 
-/-- Proved for every abstract codec: GIVEN the target's round trip (`RoundTrips c P`, an explicit hypothesis —
-    this is where `RdfModel.C02.turtle_roundtrip` / `RdfModel.C01RJ.rdfjson_roundtrip` plug in) the pipe writes
+/-- Proved for every abstract codec: GIVEN the target's round trip (`RoundTrips c P`, an explicit hypothesis;
+    for the real Turtle / RDF-JSON codecs it is discharged in `Props/C18Targets.lean`) the pipe writes
     a document that decodes to the source statements (graph names dropped) up to an injective relabelling.
     PARTIAL because (a) the hypothesis is not discharged here, (b) labels are requested in statement order
     (subject, object), whereas the buffered / resources modes of the Turtle encoder and the RDF/JSON encoder ask
